@@ -820,8 +820,10 @@ def _f108(vio):
     det = vio.get("detail") or {}
     comp = det.get("compiled") or {}
     e = str(comp.get("error") if isinstance(comp, dict) else comp)
+    bit = "BitMaskedArray" in (det.get("classes") or [])
     return _c20(vio) and vio.get("kind") == "outcome-differs" and \
-        ("content must not be shorter than its mask" in e or "mask must not be shorter than its ceil(length" in e)
+        ("content must not be shorter than its mask" in e or "mask must not be shorter than its ceil(length" in e or
+         (bit and "Index::getitem_range_nowrap with illegal start:stop" in e))
 
 
 @mechanism("F109-numba-size0-regular")
@@ -881,8 +883,8 @@ def _f111(vio):
     start:stop', 'slice index out of bounds', 'at=N is out of range'), negative i addresses the wrong partition"""
     case = vio.get("case") or {}
     det = vio.get("detail") or {}
-    return _c20(vio) and case.get("wrap") == "partitioned" and det.get("program") in ("at", "chain") and \
-        vio.get("kind") in ("outcome-differs", "value-differs")
+    return _c20(vio) and case.get("wrap") == "partitioned" and case.get("prog") in ("at", "chain") and \
+        vio.get("kind") in ("outcome-differs", "value-differs", "process-death")
 
 
 @mechanism("F110d-numba-virtual-field-access")
